@@ -119,7 +119,7 @@ def gen(tier, seed, info):
     info["random_cases"] = nrand
     info["random_op_kind_counts"] = kinds
     # handlers that re-enter the window layer while the flush runs
-    nre = 3000 if tier == "quick" else 100000
+    nre = 2400 if tier == "quick" else 100000
     for fixed in REENTRANT_FIXED:
         yield fixed
     for _ in range(nre):
@@ -147,7 +147,7 @@ def gen(tier, seed, info):
     # handlers that run a nested flush of the root after damaging something (only exposes besides: a nested
     # flush uses up damage that the outer flush's already-drawn buffer then overwrites, see notes/C01.md),
     # and handlers that change a window's geometry (their own included) and expose the old and new area
-    nfl = 2500 if tier == "quick" else 80000
+    nfl = 1600 if tier == "quick" else 80000
     for k in range(nfl):
         nl, nc = rnd.randint(2, 6), rnd.randint(3, 9)
         ops, sh = wingen.history(rnd, nl, nc, rnd.randint(4, 20), PROFILE_RE)
